@@ -302,6 +302,37 @@ func runC17Once(c c17OnceCase, rec *c17Recorder) (o c17OnceObs) {
 	case <-time.After(c17Deadline):
 	}
 
+	// all constructors have run: now a few thousand Gets of the requested keys from eight
+	// goroutines at once; every one returns the value of ITS key (lookup shortcuts, a "last key"
+	// cache, a striped map must not mix keys up)
+	var reqKeys []int
+	for k, req := range o.requested {
+		if req && ctor[k].Load() == 1 {
+			reqKeys = append(reqKeys, k)
+		}
+	}
+	select {
+	case <-done:
+		if len(reqKeys) >= 2 {
+			var hw sync.WaitGroup
+			for g := 0; g < 8; g++ {
+				hw.Add(1)
+				go func(g int) {
+					defer hw.Done()
+					defer func() { _ = recover() }()
+					for n := 0; n < 600; n++ {
+						k := reqKeys[(n*(g+1)+g)%len(reqKeys)]
+						if v := oc.Get(k); v == nil || v.key != k {
+							valueFault.CompareAndSwap(nil, fmt.Sprintf("Get(%d) returned the value of another key (%+v)", k, v))
+							return
+						}
+					}
+				}(g)
+			}
+			hw.Wait()
+		}
+	default:
+	}
 	mu.Lock()
 	defer mu.Unlock()
 	if v, _ := valueFault.Load().(string); v != "" {
